@@ -17,7 +17,8 @@ import RModel.Gen.OutputShapes
     * `run`: sequential interpretation of the guarded event list of a handler; `outcome`: main's Ok/Err arms on top;
     * `intended`: the effect a command line asks for;  an operation that returns Ok has had its effect;
     * `.fallible s` (a member rendered through `serde_json::to_value(..).unwrap_or(Value::Null)`) is `s` unless the scenario
-      says serialisation fails (`DocCtx.serFails`: some planned path is not valid UTF-8), then it is `null`;
+      says serialisation fails (`DocCtx.serFails`: some planned path is not valid UTF-8), then it is `null`; since 56d4ab2 the
+      planner refuses such a path, so `serFails` is false in every scenario a command can reach;
     * no signal arrives: main's interrupted flag is false in every row (`Gen.exitOkInterrupted` is only pinned non-zero);
     * stdout is a pipe in every row (so `rename` without `-y` fails inside `rename_operation` before its prompt), the
       `RENAMIFY_DEBUG_*` variables are unset, clap rejects an invalid argv before any handler runs.
